@@ -175,6 +175,11 @@ func plans(id, tier string) (Plan, bool) {
 			{Pkg: pkgTok, Harness: "c17_tokens", Shards: pick(4, 16)},
 			{Pkg: pkgSS, Harness: "c17_candidates", Shards: 16},
 		}}, true
+	case "C18":
+		return Plan{Level: "exploration", Jobs: []Job{
+			{Pkg: pkgCP, Harness: "c18_lexer", Shards: 16, MaxProcs: 2},
+			{Pkg: pkgCP, Harness: "c18_chunks", Shards: pick(2, 8), MaxProcs: 2},
+		}}, true
 	case "C20":
 		return Plan{Level: "model_checking", Jobs: []Job{
 			{Pkg: pkgSets, Harness: "c20_stringset", Shards: pick(4, 8)},
